@@ -56,4 +56,42 @@ theorem kleene (x y : Option Bool) :
     | none => simp [andEval, orEval, invertEval, tv, truthy]
     | some b => cases b <;> simp [andEval, orEval, invertEval, tv, truthy])
 
+-- OBLIGATION: PysparklingVerif.Extracted.C12.modInt_eq
+/-- the repaired `Mod.unsafe_operation`, on two ints, is the model's remainder: null for a zero divisor, otherwise the
+remainder of the division truncated toward zero (`abs(a) % abs(b)` with the sign of `a` IS `Int.tmod a b`) -/
+theorem modInt_eq (x y : Int) :
+    modInt x y = if y = 0 then none else some (Int.tmod x y) := by
+  unfold modInt
+  split
+  · rfl
+  · rename_i hy
+    congr 1
+    have hf : Int.fmod ((Int.natAbs x : Nat) : Int) ((Int.natAbs y : Nat) : Int) = ((x.natAbs % y.natAbs : Nat) : Int) := by
+      rw [Int.fmod_eq_emod_of_nonneg _ (by omega)]; exact (Int.natCast_emod _ _).symm
+    rw [hf]
+    have h2 : (Int.tmod x y).natAbs = x.natAbs % y.natAbs := Int.natAbs_tmod x y
+    generalize hr : x.natAbs % y.natAbs = r at h2 ⊢
+    by_cases hx : x < 0
+    · simp only [hx, if_true]
+      have h3 : Int.tmod x y ≤ 0 := by
+        have h4 := Int.tmod_nonneg y (show 0 ≤ -x by omega)
+        rw [Int.neg_tmod] at h4
+        generalize Int.tmod x y = t at h4 ⊢
+        omega
+      generalize Int.tmod x y = t at h2 h3 ⊢
+      simp only [Option.some.injEq]
+      omega
+    · simp only [hx, if_false]
+      have h3 : 0 ≤ Int.tmod x y := Int.tmod_nonneg y (by omega)
+      generalize Int.tmod x y = t at h2 h3 ⊢
+      simp only [Option.some.injEq]
+      omega
+
+-- OBLIGATION: PysparklingVerif.Extracted.C12.modInt_is_arithM
+/-- … which is what the model's `arithM .mod` computes on integers -/
+theorem modInt_is_arithM (x y : Int) :
+    arithM .mod (.int x) (.int y) = .ok (match modInt x y with | none => .null | some r => .int r) := by
+  rw [modInt_eq]
+  by_cases hy : y = 0 <;> simp [arithM, hy]
+
 end PysparklingVerif.Extracted.C12
